@@ -333,6 +333,24 @@ where
         self.split_kmer_pos.len()
     }
 
+    /// Verification hook: the reference split k-mer index.
+    #[cfg(feature = "verif-hooks")]
+    pub fn verif_index(&self) -> &[RefKmer<IntT>] {
+        &self.split_kmer_pos
+    }
+
+    /// Verification hook: absolute coordinates masked by `--repeat-mask`.
+    #[cfg(feature = "verif-hooks")]
+    pub fn verif_repeat_coors(&self) -> &[usize] {
+        &self.repeat_coors
+    }
+
+    /// Verification hook: (contig, position) of every mapped reference split k-mer.
+    #[cfg(feature = "verif-hooks")]
+    pub fn verif_mapped_pos(&self) -> &[(usize, usize)] {
+        &self.mapped_pos
+    }
+
     /// An [`Iterator`] over the reference's split-kmers.
     pub fn kmer_iter(&self) -> impl Iterator<Item = IntT> + '_ {
         self.split_kmer_pos.iter().map(|k| k.kmer)
